@@ -218,12 +218,8 @@ func c07Notify(p *Prog, ls *Lockset, r *Report) {
 		}
 		// the entity list is updated before the notification
 		var lastStore ssa.Instruction
-		for _, a := range ls.accessesIn(F("DeviceLocal.entities"), fn) {
-			if a.Kind == "W" {
-				lastStore = a.Ins
-			}
-		}
 		var notifyCall ssa.Instruction
+		orderOK := false
 		forEachCall(fn, func(site ssa.CallInstruction) {
 			for _, c := range p.Callees(site) {
 				if e.relevant[c] && !ib.opaque(c) {
@@ -234,7 +230,15 @@ func c07Notify(p *Prog, ls *Lockset, r *Report) {
 				notifyCall = site
 			}
 		})
-		r.Check("R4", base+"|order", lastStore != nil && notifyCall != nil && instrDominates(lastStore, notifyCall), p.Pos(fn.Pos()), "the entity list is stored before the subscribers are notified")
+		p.InScope(fn, func() { // the list update may sit in an extracted helper ("dropEntity")
+			for _, a := range ls.accessesInScope(F("DeviceLocal.entities"), fn) {
+				if a.Kind == "W" {
+					lastStore = a.Ins
+				}
+			}
+			orderOK = lastStore != nil && notifyCall != nil && instrDominates(lastStore, notifyCall)
+		})
+		r.Check("R4", base+"|order", orderOK, p.Pos(fn.Pos()), "the entity list is stored before the subscribers are notified")
 		// the announced state: constant at the call into the notification helper
 		state := ""
 		if notifyCall != nil {
